@@ -56,6 +56,16 @@ to it by the parallel-axis law from the tensor reported before - and `mass_prope
 `moment_inertia_frame` (computed from the triangles by base.py) against the exact integrals of the
 primitive's own vertices and faces.
 
+Almost-rigid edits (round 5): a mesh whose values were read is edited by an operation that differs from
+a rigid motion / the identity by 1e-4 .. 1e-9 and read again; truth = the exact integrals of the float64
+vertices the object holds after the edit.  A value bit-identical to the one read before the edit is
+reported under sym=stale_value_from_before_the_edit.
+
+Argument representations (round 5): whole numbers are the same real numbers whether they arrive as
+float64, an integer array, nested lists / tuples of ints, float16 / float32 or another memory layout;
+frames, overrides, densities, triangles, vertices and tensors in those forms are judged like float64.
+(`triangles.cross` is the typed low-level helper that computes in the dtype it is given: float64 only.)
+
 Histories: the same quantities after the library copied the mesh (with / without its cache) and one
 of the two objects was edited (density, override, transform, invert, vertices): every object of the
 family is judged after every step against the exact integrals of ITS OWN solid, density, override.
@@ -85,6 +95,11 @@ RULE = (
     "{values read before the setter, not read}: density / override laws and the triangle-derived values; "
     "histories over a family of objects related by copy(include_cache in {True, False}): read / copy / set "
     "density / set override / integer transform / invert / assign vertices, all objects judged after every step. "
+    "read - ALMOST-rigid edit - read on one object (apply_scale / apply_transform / apply_translation off a rigid motion or the "
+    "identity by +-{1e-4 .. 1e-9}: uniform, similarity, mirrored similarity, anisotropic, shear, small rotation, small translation; "
+    "1 or 3 steps; values read before or not; a cache-sharing copy judged too) against the exact integrals of the float64 "
+    "vertices held after each step; whole-number frames / overrides / densities / triangles / vertices / tensors handed over as "
+    "int8..int64 arrays, nested lists / tuples, float16 / float32, Fortran-order / read-only / strided arrays. "
     "A case is one (mesh, placement, route, density, override[, frame]) evaluation; distinct = distinct "
     "(vertex bytes, face bytes, route, parameters) resp. distinct (mesh, program prefix); non-trivial = exact "
     "volume != 0 and above 1e3 x its own rounding tolerance (otherwise only volume / area are judged)."
@@ -702,13 +717,46 @@ def workload(run):
             break
 
     run.note("t_after_transform", round(run.elapsed(), 1))
+    # (1b') read - almost-rigid edit - read on one object; whole-number arguments in other representations
+    near_meshes = [("tetra", gm.tetra(rng)), ("hull", gm.hull_int(rng, 6))]
+    if not quick:
+        near_meshes += [(t_, (V_, F_)) for t_, V_, F_ in gm.closed_meshes(rng, count=6)]
+    for mi, (tag, (V, F)) in enumerate(near_meshes):
+        for ki, kind in enumerate(NEAR_KINDS):
+            for ei, e in enumerate(NEAR_EPS):
+                for sign in (1.0, -1.0):
+                    idx += 1
+                    ops = near_rigid_ops(rng, kind, sign * e, 3 if (ei + ki) % 3 == 0 else 1)
+                    # quick tier: both signs on the first mesh, alternating on the second
+                    if not run.mine(idx) or (quick and mi == 1 and (ei + (sign > 0)) % 2):
+                        continue
+                    check_near_rigid(run, tag, V, F, kind, ops, True)
+                    if sign > 0 and ei % 3 == 0:
+                        check_near_rigid(run, tag, V, F, kind, ops, False)
+        if run.out_of_time(0.46):
+            run.count("near_rigid_cut_short")
+            break
+    run.note("t_near_rigid", round(run.elapsed(), 1))
+    arg_meshes = [("tetra", gm.tetra(rng)), ("hull", gm.hull_int(rng, 6)), ("box", gm.box_int((2, 3, 4), (0, 0, 0)))]
+    arg_meshes += [(t_, (V_, F_)) for t_, V_, F_ in gm.closed_meshes(rng, count=1 if quick else 8)][2:]
+    k = 0
+    for tag, (V, F) in arg_meshes:
+        for _rep in range(2 if quick else 6):
+            idx += 1
+            k += 1
+            if run.mine(idx):
+                check_argument_forms(run, tag, V, F, random_argform_spec(rng, k))
+        if run.out_of_time(0.52):
+            run.count("argument_forms_cut_short")
+            break
+    run.note("t_argument_forms", round(run.elapsed(), 1))
     # (1c) histories over objects related by copy(include_cache=...): read / copy / edit one / judge all
     hist_meshes = [("tetra", gm.tetra(rng)), ("hull", gm.hull_int(rng, 7))]
     more = [(t_, (V_, F_)) for t_, V_, F_ in gm.closed_meshes(rng, count=1 if quick else 8)]
     hist_meshes += more[2:] if quick else more  # quick: genus-1 torus, L prism, one random class
     n_hist = 0
     for hi, (tag, (V, F)) in enumerate(hist_meshes):
-        if hi >= 2 and run.out_of_time(0.50):
+        if hi >= 2 and run.out_of_time(0.58):
             run.count("systematic_histories_cut_short")
             break
         for prog in history_programs(rng, V):
@@ -1030,6 +1078,283 @@ def check_after_transform(run, tag, V, F, cls, L, t, warm):
 
 
 # ------------------------------------------------------------------------------------------
+# round 5: transforms NEAR a rigid motion / the identity (read - transform - read on one object)
+
+NEAR_EPS = (1e-4, 3e-5, 8e-6, 2e-6, 1e-6, 1e-7, 1e-9)
+NEAR_KINDS = ("scale", "similarity", "mirror_similarity", "aniso", "shear", "rotation_small", "translation_small")
+NEAR_READS = ("area", "area_faces", "volume", "mass", "center_mass", "moment_inertia", "mass_properties",
+              "principal_inertia_components", "face_normals", "triangles")
+
+
+def near_rigid_ops(rng, kind, e, steps):
+    """JSON-able list of `steps` operations of class `kind`, each off a rigid motion / the identity by e"""
+    ops = []
+    for _ in range(steps):
+        if kind == "scale":
+            ops.append(["scale", 1.0 + e])
+            continue
+        if kind == "translation_small":
+            ops.append(["translate", (e * np.array([1.0, -2.0, 3.0])).tolist()])
+            continue
+        M = np.eye(4)
+        if kind in ("similarity", "mirror_similarity"):
+            R = gm.frac_to_float(gm.rational_rotation(rng, maxq=4))
+            if kind == "mirror_similarity":
+                R = R @ np.diag([1.0, 1.0, -1.0])
+            M[:3, :3] = (1.0 + e) * R
+            M[:3, 3] = rng.integers(-5, 6, size=3)
+        elif kind == "aniso":
+            M[:3, :3] = np.diag([1.0 + e, 1.0, 1.0 - e / 2])
+        elif kind == "shear":
+            M[0, 1] = e
+            M[2, 0] = -e / 2
+        elif kind == "rotation_small":
+            c, s_ = np.cos(e), np.sin(e)
+            M[:3, :3] = [[c, -s_, 0.0], [s_, c, 0.0], [0.0, 0.0, 1.0]]
+        else:
+            raise AssertionError(kind)
+        ops.append(["transform", M.tolist()])
+    return ops
+
+
+def check_near_rigid(run, tag, V, F, kind, ops, warm):
+    """
+    One object: (read everything | read nothing) - edit by an operation that is ALMOST a rigid motion /
+    the identity - read again, repeated for every operation.  After every step the values are judged
+    against the exact integrals of the float64 vertices / faces the object holds NOW (and those of a
+    cache-sharing copy taken before the step against the solid the copy holds): the statement is about
+    the current solid, however close the previous one was.
+    """
+    V = np.asarray(V, dtype=np.int64)
+    F = np.asarray(F, dtype=np.int64)
+    m = gm.to_trimesh(V, F)
+    wk = "yes" if warm else "no"
+    T = np.eye(4)
+    T[:3, :3] = [[0.0, -1.0, 0.0], [1.0, 0.0, 0.0], [0.0, 0.0, 1.0]]
+    T[:3, 3] = [3.0, -2.0, 5.0]
+
+    def read(mm):
+        out = {"area": float(mm.area), "area_faces_sum": float(np.sum(mm.area_faces)), "volume": float(mm.volume),
+               "mass": float(mm.mass), "center_mass": np.array(mm.center_mass, dtype=np.float64),
+               "inertia": np.array(mm.moment_inertia, dtype=np.float64)}
+        mp = mm.mass_properties
+        out["dict_volume"], out["dict_center_mass"] = float(mp["volume"]), np.array(mp["center_mass"], dtype=np.float64)
+        out["dict_inertia"] = np.array(mp["inertia"], dtype=np.float64)
+        out["frame_inertia"] = np.array(mm.moment_inertia_frame(T), dtype=np.float64)
+        return out
+
+    def judge(mm, route, old, extra):
+        ctx = Ctx(run, tag, np.array(mm.vertices, dtype=np.float64), np.array(mm.faces), "asis", 1.0, 0.0)
+        ctx.V0, ctx.F = V, F  # the witness: the integer mesh and the operations
+        ctx.case_extra = extra
+        if not ctx.solid:
+            return None, True
+        got = read(mm)
+        tv, ex = ctx.ex.tol_volume(), ctx.ex
+
+        def alt(q):
+            if old is None:
+                return ()
+            return (("class=%s warm=%s sym=stale_value_from_before_the_edit" % (kind, wk), old[q], 0.0),)
+
+        I, tI, _a = _tensor_expect(ctx, None, 1.0)
+        Ie, tIe, _a = _frame_expect(ctx, T[:3, :3], T[:3, 3], None, 1.0)
+        before = ctx.unnamed + len(ctx.named)
+        ctx.judge(route, "area", got["area"], ex.area, ex.tol_area(), alts=alt("area"))
+        ctx.judge(route, "area_faces_sum", got["area_faces_sum"], ex.area, ex.tol_area(), alts=alt("area_faces_sum"))
+        ctx.judge(route, "volume", got["volume"], ctx.vol, tv, alts=alt("volume"))
+        ctx.judge(route, "mass", got["mass"], ctx.vol, tv, alts=alt("mass"))
+        ctx.judge(route, "center_mass", got["center_mass"], ctx.c, ctx.tc, alts=alt("center_mass"))
+        ctx.judge(route, "inertia", got["inertia"], I, tI, alts=alt("inertia"))
+        ctx.judge(route + ":dict", "volume", got["dict_volume"], ctx.vol, tv, alts=alt("dict_volume"))
+        ctx.judge(route + ":dict", "center_mass", got["dict_center_mass"], ctx.c, ctx.tc, alts=alt("dict_center_mass"))
+        ctx.judge(route + ":dict", "inertia", got["dict_inertia"], I, tI, alts=alt("dict_inertia"))
+        ctx.judge(route + ":frame", "inertia", got["frame_inertia"], Ie, tIe, alts=alt("frame_inertia"))
+        run.note("worst_ratio_to_tolerance", max(run.notes.get("worst_ratio_to_tolerance", 0.0), ctx.worst))
+        return got, ctx.unnamed + len(ctx.named) == before
+
+    old = None
+    for si, op in enumerate(ops):
+        prefix = ops[: si + 1]
+        extra = {"near_ops": prefix, "near_kind": kind, "warm": bool(warm)}
+        try:
+            twin = None
+            if warm:
+                for name in NEAR_READS:
+                    getattr(m, name)
+                old = read(m)
+                twin = m.copy(include_cache=True)
+            if op[0] == "scale":
+                m.apply_scale(float(op[1]))
+            elif op[0] == "translate":
+                m.apply_translation(np.array(op[1], dtype=np.float64))
+            else:
+                m.apply_transform(np.array(op[1], dtype=np.float64))
+            run.case("near_rigid:%s:%s" % (kind, "warm" if warm else "cold"), V, F, repr(prefix), warm, nontrivial=True)
+            run.state("near_rigid_kind_warm_step", (kind, bool(warm), min(si, 2)))
+            _g, ok = judge(m, "nearrigid:%s:warm=%s" % (kind, wk), old if warm else None, extra)
+            if twin is not None:
+                _g2, ok2 = judge(twin, "nearrigid:%s:warm=%s:cache_sharing_copy" % (kind, wk), None, extra)
+                ok = ok and ok2
+        except Exception as e:  # noqa
+            run.violation("route=nearrigid class=%s warm=%s sym=exception:%s" % (kind, wk, type(e).__name__),
+                          "a read - almost-rigid edit - read history raised %r" % (e,),
+                          dict(extra, V=V.tolist(), F=F.tolist(), mesh=tag))
+            return
+        if not ok:
+            return  # a stale value stays stale: later steps would repeat it
+
+
+# ------------------------------------------------------------------------------------------
+# round 5: the same numbers handed over in another representation (dtype / container / layout)
+
+
+def _forms(allow_narrow=True):
+    """name -> converter of an array of WHOLE numbers into another representation of the same values"""
+    def ro(A):
+        B = np.array(A, dtype=np.float64)
+        B.setflags(write=False)
+        return B
+
+    def strided(A):
+        A = np.array(A, dtype=np.float64)
+        big = np.zeros(tuple(2 * n for n in A.shape), dtype=np.float64)
+        view = big[tuple(slice(None, None, 2) for _ in A.shape)]
+        view[...] = A
+        return view
+
+    f = {
+        "int64": lambda A: np.array(A, dtype=np.int64),
+        "int32": lambda A: np.array(A, dtype=np.int32),
+        "nested_list_of_int": lambda A: np.array(A, dtype=np.int64).tolist(),
+        "nested_tuple_of_int": lambda A: _tuples(np.array(A, dtype=np.int64).tolist()),
+        "nested_list_of_float": lambda A: np.array(A, dtype=np.float64).tolist(),
+        "float32": lambda A: np.array(A, dtype=np.float32),
+        "fortran_order_float64": lambda A: np.asfortranarray(np.array(A, dtype=np.float64)),
+        "readonly_float64": ro,
+        "strided_view_float64": strided,
+    }
+    if allow_narrow:
+        f["int8"] = lambda A: np.array(A, dtype=np.int8)
+        f["float16"] = lambda A: np.array(A, dtype=np.float16)
+    return f
+
+
+def _tuples(x):
+    return tuple(_tuples(y) for y in x) if isinstance(x, list) else x
+
+
+SCALAR_FORMS = {
+    "int": int, "np_int64": np.int64, "np_int32": np.int32, "np_float32": np.float32, "np_float16": np.float16,
+    "zero_dim_array": lambda x: np.array(float(x)),
+}
+
+INT_ROTATIONS = [np.array(R, dtype=np.int64) for R in (
+    [[1, 0, 0], [0, 1, 0], [0, 0, 1]], [[0, -1, 0], [1, 0, 0], [0, 0, 1]], [[0, 0, 1], [1, 0, 0], [0, 1, 0]],
+    [[-1, 0, 0], [0, -1, 0], [0, 0, 1]], [[0, 1, 0], [0, 0, -1], [-1, 0, 0]], [[1, 0, 0], [0, 0, -1], [0, 1, 0]],
+)]
+
+
+def random_argform_spec(rng, k):
+    return {"R": INT_ROTATIONS[k % len(INT_ROTATIONS)].tolist(),
+            "t": [0, 0, 0] if k % 3 == 0 else rng.integers(-6, 7, size=3).tolist(),
+            "ov": rng.integers(-5, 6, size=3).tolist(), "rho": int(rng.integers(2, 9)),
+            "half": bool(k % 2)}
+
+
+def check_argument_forms(run, tag, V, F, spec):
+    """
+    Frames, overrides, densities, triangles, vertices and tensors made of whole numbers, handed to the
+    library as int arrays / nested lists / tuples / float32 / float16 / other memory layouts: the same
+    numbers, so the same solid, frame, density and override - judged like the float64 form against
+    the exact integrals.  `half`: the solid is (V + 1/2) / 2 (a centre of mass with fractional
+    coordinates whatever the mesh), only the arguments are whole numbers.
+    """
+    import trimesh  # noqa
+    from trimesh import inertia as tinertia
+    from trimesh import triangles as ttri
+
+    V = np.asarray(V, dtype=np.int64)
+    F = np.asarray(F, dtype=np.int64)
+    half = bool(spec.get("half"))
+    pname, scale, trans = ("half_offset_scaled", 0.5, 0.5) if half else ("asis", 1.0, 0.0)
+    ctx = Ctx(run, tag, V, F, pname, scale, trans)
+    ctx.case_extra = {"argform": {k: spec[k] for k in ("R", "t", "ov", "rho", "half")}}
+    if not ctx.solid:
+        return
+    ex, tv = ctx.ex, ctx.ex.tol_volume()
+    R, t = np.array(spec["R"], dtype=np.int64), np.array(spec["t"], dtype=np.int64)
+    ov, rho = np.array(spec["ov"], dtype=np.int64), int(spec["rho"])
+    Rf, tf, ovf = R.astype(np.float64), t.astype(np.float64), ov.astype(np.float64)
+    T = np.eye(4, dtype=np.int64)
+    T[:3, :3], T[:3, 3] = R, t
+    narrow = int(np.abs(V).max()) < 100
+    forms = _forms()
+    Ie, tIe, _a = _frame_expect(ctx, Rf, tf, None, 1.0)
+    I1, tI1, _a = _tensor_expect(ctx, None, 1.0)
+    Iro, tIro, aIro = _tensor_expect(ctx, ovf.tolist(), float(rho))
+    Iero, tIero, aIero = _frame_expect(ctx, Rf, tf, ovf.tolist(), float(rho))
+    # an integer tensor and mass for the free function transform_inertia; truth by integer algebra
+    J = np.array([[7, -2, 1], [-2, 9, 3], [1, 3, 11]], dtype=np.int64)
+    pa = int(t @ t) * np.eye(3, dtype=np.int64) - np.outer(t, t)
+    want_rot = (R @ J @ R.T).astype(np.float64)
+    want_pa = (R.T @ (J + rho * pa) @ R).astype(np.float64)
+
+    for fname, conv in forms.items():
+        route = "argform:" + fname
+        try:
+            run.case(route, ctx.Vf, F, fname, repr(spec), nontrivial=True)
+            run.state("argument_form", fname)
+            m = trimesh.Trimesh(vertices=ctx.Vf.copy(), faces=F.copy(), process=False)
+            # (a) the frame
+            ctx.judge(route + ":frame", "inertia", m.moment_inertia_frame(conv(T)), Ie, tIe, form=fname)
+            _ = (m.area, m.moment_inertia)
+            ctx.judge(route + ":frame_warm", "inertia", m.moment_inertia_frame(conv(T)), Ie, tIe, form=fname)
+            # (b) density and override through the setters, then everything again
+            sform = list(SCALAR_FORMS)[(len(fname) + rho) % len(SCALAR_FORMS)]
+            m.density = SCALAR_FORMS[sform](rho)
+            m.center_mass = conv(ov)
+            run.state("scalar_form", sform)
+            r = float(rho)
+            ctx.judge(route + ":setters", "mass", m.mass, ctx.vol * r, tv * r * (1 + 4 * EPS), "set", "yes", form=fname, scalar_form=sform)
+            ctx.judge(route + ":setters", "density", m.density, r, 0.0, "set", "yes", form=fname, scalar_form=sform)
+            ctx.judge(route + ":setters", "center_mass", m.center_mass, ovf, 0.0, "set", "yes", form=fname)
+            ctx.judge(route + ":setters", "inertia", m.moment_inertia, Iro, tIro, "set", "yes", alts=aIro, form=fname, scalar_form=sform)
+            ctx.judge(route + ":setters_frame", "inertia", m.moment_inertia_frame(conv(T)), Iero, tIero, "set", "yes", alts=aIero,
+                      form=fname, scalar_form=sform)
+            # (c) free functions: density / override arguments; the tensor routines
+            res = ttri.mass_properties(ctx.Vf[F].copy(), density=SCALAR_FORMS[sform](rho), center_mass=conv(ov))
+            ctx.judge(route + ":free", "mass", res["mass"], ctx.vol * r, tv * r * (1 + 4 * EPS), "set", "yes", form=fname, scalar_form=sform)
+            ctx.judge(route + ":free", "center_mass", res["center_mass"], ovf, 0.0, "set", "yes", form=fname)
+            ctx.judge(route + ":free", "inertia", res["inertia"], Iro, tIro, "set", "yes", alts=aIro, form=fname, scalar_form=sform)
+            ctx.judge(route + ":transform_inertia_3x3", "rotated", tinertia.transform_inertia(conv(R), conv(J)), want_rot, 64 * EPS * 64, form=fname)
+            ctx.judge(route + ":transform_inertia_4x4", "rotated", tinertia.transform_inertia(conv(T), conv(J)), want_rot, 64 * EPS * 64, form=fname)
+            ctx.judge(route + ":transform_inertia_4x4", "parallel_axis",
+                      tinertia.transform_inertia(conv(T), conv(J), parallel_axis=True, mass=SCALAR_FORMS[sform](rho)),
+                      want_pa, 64 * EPS * float(np.abs(want_pa).max() + 64), form=fname, scalar_form=sform)
+            # (d) the solid itself in that form (whole-number coordinates only; narrow types when they fit)
+            if not half and (narrow or fname not in ("int8", "float16")):
+                tri = conv(V[F])
+                res = ttri.mass_properties(tri)
+                ctx.judge(route + ":free_triangles", "volume", res["volume"], ctx.vol, tv, form=fname)
+                ctx.judge(route + ":free_triangles", "center_mass", res["center_mass"], ctx.c, ctx.tc, form=fname)
+                ctx.judge(route + ":free_triangles", "inertia", res["inertia"], I1, tI1, form=fname)
+                ctx.judge(route + ":free_triangles", "area", float(np.sum(ttri.area(conv(V[F])))), ex.area, ex.tol_area(), form=fname)
+                # (triangles.cross is the typed low-level helper - `NDArray`, "(n, 3, 3) float" - and computes in the
+                # dtype it is given; it is driven with float64 only, see check_mesh)
+                mv = trimesh.Trimesh(vertices=conv(V), faces=conv(F) if fname.startswith(("int", "nested_list_of_int", "nested_tuple")) else F.copy(),
+                                     process=False)
+                ctx.judge(route + ":mesh_vertices", "volume", mv.volume, ctx.vol, tv, form=fname)
+                ctx.judge(route + ":mesh_vertices", "area", mv.area, ex.area, ex.tol_area(), form=fname)
+                ctx.judge(route + ":mesh_vertices", "center_mass", mv.center_mass, ctx.c, ctx.tc, form=fname)
+                ctx.judge(route + ":mesh_vertices", "inertia", mv.moment_inertia, I1, tI1, form=fname)
+        except Exception as e:  # noqa
+            run.violation("route=%s sym=exception:%s" % (route, type(e).__name__),
+                          "whole numbers handed over as %s: the library raised %r" % (fname, e), ctx.base_case(route=route, form=fname))
+    run.note("worst_ratio_to_tolerance", max(run.notes.get("worst_ratio_to_tolerance", 0.0), ctx.worst))
+
+
+# ------------------------------------------------------------------------------------------
 # histories over a family of objects related by copy()
 
 HIST_READS = ("volume", "mass", "center_mass", "moment_inertia", "mass_properties", "area",
@@ -1250,6 +1575,13 @@ def check_history(run, tag, V, F, program):
 def replay(run, case):
     if isinstance(case, dict) and case.get("program") is not None:
         check_history(run, case.get("tag", "replay"), np.array(case["V"]), np.array(case["F"]), case["program"])
+        return
+    if isinstance(case, dict) and case.get("near_ops") is not None:
+        check_near_rigid(run, case.get("mesh", "replay"), np.array(case["V"]), np.array(case["F"]), case["near_kind"],
+                         case["near_ops"], case["warm"])
+        return
+    if isinstance(case, dict) and case.get("argform") is not None:
+        check_argument_forms(run, case.get("mesh", "replay"), np.array(case["V"]), np.array(case["F"]), case["argform"])
         return
     if isinstance(case, dict) and str(case.get("route", "")).startswith("primitive") and "cls" in case:
         spec = {k: case[k] for k in ("cls", "params", "T", "density", "offset", "warm")}
